@@ -65,6 +65,7 @@ func pick[T any](base []T, idx []int) []T {
 }
 
 type c16Op struct {
+	args  string // description of the arguments (for samples and witnesses)
 	name  string
 	sizes []int                              // sizes of the list arguments (base element counts)
 	dedup bool                               // result documented as de-duplicated
@@ -89,6 +90,7 @@ func runC16(c *core.Case) {
 	if op == nil {
 		return
 	}
+	op.args = c16ArgDesc
 	c.Tag("op:" + op.name)
 	c.KS(op.name)
 	var variants []string
@@ -193,7 +195,7 @@ func runC16(c *core.Case) {
 	}
 	desc := variants
 	c.Desc = func() any {
-		return map[string]any{"operation": op.name, "variants": desc, "first_result": trunc1(first.canon)}
+		return map[string]any{"operation": op.name, "arguments": op.args, "variants": desc, "first_result": trunc1(first.canon)}
 	}
 }
 
@@ -204,8 +206,14 @@ func strsUnmodified(name string, a, b []string) string {
 	return ""
 }
 
+// c16ArgDesc is set by c16MakeOp (one case at a time per worker process).
+var c16ArgDesc string
+
 func c16MakeOp(c *core.Case) *c16Op {
 	r := c.R
+	c16ArgDesc = ""
+	note := func(format string, a ...any) { c16ArgDesc = fmt.Sprintf(format, a...) }
+	_ = note
 	// a family of related IDs: base, nested entries, neighbours, corner-first shapes
 	mkIDs := func(hlo, hhi, vlo, vhi int64, square bool) []ref.ID {
 		base := genID(r, hlo, hhi, vlo, vhi)
@@ -278,14 +286,15 @@ func c16MakeOp(c *core.Case) *c16Op {
 		base := ref.Exts(ids)
 		keyStrings(c, base)
 		c.KI(H, V)
-		return &c16Op{"ChangeExtendedSpatialIdsZoom", []int{len(base)}, true, listCall("ids", base, func(l []string) ([]string, error) { return integrate.ChangeExtendedSpatialIdsZoom(l, H, V) })}
+		note("ids=%q hZoom=%d vZoom=%d", base, H, V)
+		return &c16Op{name: "ChangeExtendedSpatialIdsZoom", sizes: []int{len(base)}, dedup: true, call: listCall("ids", base, func(l []string) ([]string, error) { return integrate.ChangeExtendedSpatialIdsZoom(l, H, V) })}
 	case 2: // zoom change, spatial
 		ids := mkIDs(1, 33, 1, 33, true)
 		Z := clampI(ids[0].H+r.Range(-3, 2), 0, 35)
 		base := ref.Spatials(ids)
 		keyStrings(c, base)
 		c.KI(Z)
-		return &c16Op{"ChangeSpatialIdsZoom", []int{len(base)}, true, listCall("ids", base, func(l []string) ([]string, error) { return integrate.ChangeSpatialIdsZoom(l, Z) })}
+		return &c16Op{name: "ChangeSpatialIdsZoom", sizes: []int{len(base)}, dedup: true, call: listCall("ids", base, func(l []string) ([]string, error) { return integrate.ChangeSpatialIdsZoom(l, Z) })}
 	case 3, 4: // merge, extended
 		H, V := r.Range(0, 33), r.Range(0, 33)
 		T := genID(r, H, H, V, V)
@@ -304,7 +313,8 @@ func c16MakeOp(c *core.Case) *c16Op {
 		base := ref.Exts(ids)
 		keyStrings(c, base)
 		c.KI(H, V)
-		return &c16Op{"MergeExtendedSpatialIds", []int{len(base)}, true, listCall("ids", base, func(l []string) ([]string, error) { return integrate.MergeExtendedSpatialIds(l, H, V) })}
+		note("ids=%q hZoom=%d vZoom=%d", trunc(base, 24), H, V)
+		return &c16Op{name: "MergeExtendedSpatialIds", sizes: []int{len(base)}, dedup: true, call: listCall("ids", base, func(l []string) ([]string, error) { return integrate.MergeExtendedSpatialIds(l, H, V) })}
 	case 5: // merge, spatial
 		Z := r.Range(1, 33)
 		T := genID(r, Z, Z, Z, Z)
@@ -315,7 +325,7 @@ func c16MakeOp(c *core.Case) *c16Op {
 		base := ref.Spatials(ids)
 		keyStrings(c, base)
 		c.KI(Z)
-		return &c16Op{"MergeSpatialIds", []int{len(base)}, true, listCall("ids", base, func(l []string) ([]string, error) { return integrate.MergeSpatialIds(l, Z) })}
+		return &c16Op{name: "MergeSpatialIds", sizes: []int{len(base)}, dedup: true, call: listCall("ids", base, func(l []string) ([]string, error) { return integrate.MergeSpatialIds(l, Z) })}
 	case 6, 7: // lines (no list argument: repeated calls only)
 		h, v := genZoom(r), genZoom(r)
 		pa, pb, _ := genSegment(r, h, v, 8)
@@ -323,13 +333,14 @@ func c16MakeOp(c *core.Case) *c16Op {
 		b, _ := object.NewPoint(pb.lon, pb.lat, pb.alt)
 		c.KF(pa.lon, pa.lat, pa.alt, pb.lon, pb.lat, pb.alt)
 		c.KI(h, v)
+		note("start=(%.17g,%.17g,%.17g) end=(%.17g,%.17g,%.17g) hZoom=%d vZoom=%d", pa.lon, pa.lat, pa.alt, pb.lon, pb.lat, pb.alt, h, v)
 		name := "GetExtendedSpatialIdsOnLine"
 		f := func() ([]string, error) { return shape.GetExtendedSpatialIdsOnLine(a, b, h, v) }
 		if k == 7 && math.Abs(pa.alt-pb.alt)*math.Ldexp(1, int(h-25)) <= 40 {
 			name = "GetSpatialIdsOnLine"
 			f = func() ([]string, error) { return shape.GetSpatialIdsOnLine(a, b, h) }
 		}
-		return &c16Op{name, nil, true, func([][]int) (c16Res, string) {
+		return &c16Op{name: name, sizes: nil, dedup: true, call: func([][]int) (c16Res, string) {
 			a0, b0 := *a, *b
 			out, err := f()
 			res := canonList(out)
@@ -357,7 +368,8 @@ func c16MakeOp(c *core.Case) *c16Op {
 		b, _ := object.NewPoint(pb.lon, pb.lat, pb.alt)
 		c.KF(pa.lon, pa.lat, pa.alt, pb.lon, pb.lat, pb.alt, rad)
 		c.KI(h, v)
-		return &c16Op{fmt.Sprintf("GetExtendedSpatialIdsWithinRadiusOfLine(skip=%v)", skip), nil, true, func([][]int) (c16Res, string) {
+		note("start=(%.17g,%.17g,%.17g) end=(%.17g,%.17g,%.17g) radius=%v hZoom=%d vZoom=%d skip=%v", pa.lon, pa.lat, pa.alt, pb.lon, pb.lat, pb.alt, rad, h, v, skip)
+		return &c16Op{name: fmt.Sprintf("GetExtendedSpatialIdsWithinRadiusOfLine(skip=%v)", skip), sizes: nil, dedup: true, call: func([][]int) (c16Res, string) {
 			a0, b0 := *a, *b
 			out, err := transform.GetExtendedSpatialIdsWithinRadiusOfLine(a, b, rad, h, v, skip)
 			res := canonList(out)
@@ -372,7 +384,7 @@ func c16MakeOp(c *core.Case) *c16Op {
 		c.KS(id)
 		which := r.Intn(3)
 		name := []string{"Get6spatialIdsAdjacentToFaces", "Get8spatialIdsAroundHorizontal", "Get26spatialIdsAroundVoxel"}[which]
-		return &c16Op{name, nil, false, func([][]int) (c16Res, string) {
+		return &c16Op{name: name, sizes: nil, dedup: false, call: func([][]int) (c16Res, string) {
 			var out []string
 			switch which {
 			case 0:
@@ -398,7 +410,8 @@ func c16MakeOp(c *core.Case) *c16Op {
 		base := ref.Exts(ids)
 		keyStrings(c, base)
 		c.KI(hl, vl)
-		return &c16Op{"GetNspatialIdsAroundVoxcels", []int{len(base)}, true, listCall("ids", base, func(l []string) ([]string, error) { return operated.GetNspatialIdsAroundVoxcels(l, hl, vl) })}
+		note("ids=%q hLayers=%d vLayers=%d", base, hl, vl)
+		return &c16Op{name: "GetNspatialIdsAroundVoxcels", sizes: []int{len(base)}, dedup: true, call: listCall("ids", base, func(l []string) ([]string, error) { return operated.GetNspatialIdsAroundVoxcels(l, hl, vl) })}
 	case 12, 13: // overlap checks
 		square := k == 13
 		l1 := mkIDs(0, 35, 0, 35, square)
@@ -427,8 +440,9 @@ func c16MakeOp(c *core.Case) *c16Op {
 		}
 		keyStrings(c, b1)
 		keyStrings(c, b2)
+		note("list1=%q list2=%q", b1, b2)
 		name := map[bool]string{false: "CheckExtendedSpatialIdsArrayOverlap", true: "CheckSpatialIdsArrayOverlap"}[square]
-		return &c16Op{name, []int{len(b1), len(b2)}, false, func(idx [][]int) (c16Res, string) {
+		return &c16Op{name: name, sizes: []int{len(b1), len(b2)}, dedup: false, call: func(idx [][]int) (c16Res, string) {
 			i1, i2 := pick(b1, idx[0]), pick(b2, idx[1])
 			c1, c2 := copyStrings(i1), copyStrings(i2)
 			var g bool
@@ -446,7 +460,7 @@ func c16MakeOp(c *core.Case) *c16Op {
 		b, _ := c05Related(r, a, false)
 		sa, sb := a.Ext(), b.Ext()
 		c.KS(sa, sb)
-		return &c16Op{"CheckExtendedSpatialIdsOverlap", nil, false, func([][]int) (c16Res, string) {
+		return &c16Op{name: "CheckExtendedSpatialIdsOverlap", sizes: nil, dedup: false, call: func([][]int) (c16Res, string) {
 			g, err := detector.CheckExtendedSpatialIdsOverlap(sa, sb)
 			return c16Res{canon: fmt.Sprint(g), n: -1, dist: 1, err: err}, ""
 		}}
@@ -474,7 +488,7 @@ func c16MakeOp(c *core.Case) *c16Op {
 			base := ref.Exts(ids)
 			keyStrings(c, base)
 			c.KI(H, V)
-			return &c16Op{"ConvertExtendedSpatialIDsToQuadkeysAndVerticalIDs", []int{len(base)}, true, func(idx [][]int) (c16Res, string) {
+			return &c16Op{name: "ConvertExtendedSpatialIDsToQuadkeysAndVerticalIDs", sizes: []int{len(base)}, dedup: true, call: func(idx [][]int) (c16Res, string) {
 				in := pick(base, idx[0])
 				cp := copyStrings(in)
 				out, err := transform.ConvertExtendedSpatialIDsToQuadkeysAndVerticalIDs(in, H, V, 0, 0)
@@ -491,7 +505,7 @@ func c16MakeOp(c *core.Case) *c16Op {
 			keyStrings(c, base)
 			c.KI(H, V)
 			// an altitude reference under which every voxel fits: E = 26, O = 2^25 covers -2^25 .. 2^25 m
-			return &c16Op{"ConvertExtendedSpatialIDsToQuadkeysAndAltitudekeys", []int{len(base)}, true, func(idx [][]int) (c16Res, string) {
+			return &c16Op{name: "ConvertExtendedSpatialIDsToQuadkeysAndAltitudekeys", sizes: []int{len(base)}, dedup: true, call: func(idx [][]int) (c16Res, string) {
 				in := pick(base, idx[0])
 				cp := copyStrings(in)
 				A := clampI(mv+r.Range(0, 0), 0, 35)
@@ -509,7 +523,7 @@ func c16MakeOp(c *core.Case) *c16Op {
 			keyStrings(c, base)
 			Z := clampI(ids[0].H+r.Range(-2, 2), 1, 31)
 			c.KI(Z)
-			return &c16Op{"ConvertSpatialIDsToQuadkeysAndVerticalIDs", []int{len(base)}, true, func(idx [][]int) (c16Res, string) {
+			return &c16Op{name: "ConvertSpatialIDsToQuadkeysAndVerticalIDs", sizes: []int{len(base)}, dedup: true, call: func(idx [][]int) (c16Res, string) {
 				in := pick(base, idx[0])
 				cp := copyStrings(in)
 				out, err := transform.ConvertSpatialIDsToQuadkeysAndVerticalIDs(in, Z, Z, 0, 0)
@@ -544,7 +558,7 @@ func c16MakeOp(c *core.Case) *c16Op {
 			name = "ConvertQuadkeysAndVerticalIDsToSpatialIDs"
 			H = clampI(qz+r.Range(-3, 1), 0, 35)
 		}
-		return &c16Op{name, []int{len(objs)}, k == 18, func(idx [][]int) (c16Res, string) {
+		return &c16Op{name: name, sizes: []int{len(objs)}, dedup: k == 18, call: func(idx [][]int) (c16Res, string) {
 			in := pick(objs, idx[0])
 			cp := make([]object.QuadkeyAndVerticalID, len(in))
 			for i, o := range in {
@@ -593,7 +607,7 @@ func c16MakeOp(c *core.Case) *c16Op {
 		if k == 21 {
 			name = "ConvertTileXYZsToSpatialIDs"
 		}
-		return &c16Op{name, []int{len(tiles)}, k == 20, func(idx [][]int) (c16Res, string) {
+		return &c16Op{name: name, sizes: []int{len(tiles)}, dedup: k == 20, call: func(idx [][]int) (c16Res, string) {
 			in := pick(tiles, idx[0])
 			cp := make([]object.TileXYZ, len(in))
 			for i, o := range in {
